@@ -7,7 +7,10 @@ LEVEL = "exploration"
 RULE = ("same generator as C01; the reference model (written from the statement and the ComponentType/parser/rule "
         "docstrings) predicts per node: invoked or not, the exact positional arguments, the missing-dependency report; "
         "non-trivial = the graph has an at-least-one group or an optional edge AND at least one dependency that produced "
-        "no value; distinct by hash of the full case spec")
+        "no value; distinct by hash of the full case spec; a share of the cases has the broker of a loaded archive "
+        "(SerializedArchiveContext + pre-loaded values), is evaluated a second time after implementations / dependencies were "
+        "registered late, or switches components off through insights.apply_default_enabled + apply_configs after a first "
+        "evaluation with everything enabled")
 ASSUMPTIONS = [
     "datasource bodies are documented to receive the broker, parser bodies the value (or each list element) of their first required dependency; for those two kinds the binding clause is checked against that convention",
     "enabled/disabled is set with dr.set_enabled and read back with dr.is_enabled",
